@@ -82,6 +82,7 @@ def register_gaussians(reg):
 
     reg.add(Contract(
         target=F + 'CircularGaussianPSF.evaluate', props=['C13'], kind='method',
+        replay={'call': 'photutils.psf.functional_models:CircularGaussianPSF.evaluate', 'self': 'none', 'approx': True, 'args': ['x', 'y', 'flux', 'x_0', 'y_0', 'fwhm']},
         params={'self': ('record', 'CircularGaussianPSF', {}), **pt, 'fwhm': 'posreal'},
         requires=[kpos], consts=consts,
         ensures=[('closed-form',
@@ -103,6 +104,7 @@ def register_gaussians(reg):
     sy = '(y_fwhm * GAUSSIAN_FWHM_TO_SIGMA)'
     reg.add(Contract(
         target=F + 'GaussianPSF.evaluate', props=['C13'], kind='method',
+        replay={'call': 'photutils.psf.functional_models:GaussianPSF.evaluate', 'self': 'none', 'approx': True, 'args': ['x', 'y', 'flux', 'x_0', 'y_0', 'x_fwhm', 'y_fwhm', 'theta']},
         params={'self': ('record', 'GaussianPSF', {}), **pt, 'x_fwhm': 'posreal',
                 'y_fwhm': 'posreal', 'theta': 'real'},
         requires=[kpos,
@@ -126,6 +128,7 @@ def register_gaussians(reg):
     s2 = 'sqrt_(2)'
     reg.add(Contract(
         target=F + 'GaussianPRF.evaluate', props=['C13'], kind='method',
+        replay={'call': 'photutils.psf.functional_models:GaussianPRF.evaluate', 'self': 'none', 'approx': True, 'args': ['x', 'y', 'flux', 'x_0', 'y_0', 'x_fwhm', 'y_fwhm', 'theta']},
         params={'self': ('record', 'GaussianPRF', {}), **pt, 'x_fwhm': 'posreal',
                 'y_fwhm': 'posreal', 'theta': 'real'},
         requires=[kpos], consts=consts,
@@ -139,6 +142,7 @@ def register_gaussians(reg):
     ))
     reg.add(Contract(
         target=F + 'CircularGaussianPRF.evaluate', props=['C13'], kind='method',
+        replay={'call': 'photutils.psf.functional_models:CircularGaussianPRF.evaluate', 'self': 'none', 'approx': True, 'args': ['x', 'y', 'flux', 'x_0', 'y_0', 'fwhm']},
         params={'self': ('record', 'CircularGaussianPRF', {}), **pt, 'fwhm': 'posreal'},
         requires=[kpos], consts=consts,
         ensures=[('erf-difference-formula',
@@ -154,6 +158,11 @@ def register_gaussians(reg):
 ERF_MONOTONE = 'forall_real(lambda a, b: implies(a <= b, erf_(a) <= erf_(b)))'
 ERF_ODD = 'forall_real(lambda a: erf_(-a) == -erf_(a))'
 EXP_POSITIVE = 'forall_real(lambda a: exp_(a) > 0)'
+
+
+def _rp(cls, widths):
+    return {'call': f'photutils.psf.functional_models:{cls}.evaluate', 'self': 'none',
+            'approx': True, 'args': ['x', 'y', 'flux', 'x_0', 'y_0'] + list(widths)}
 
 
 def register_relational(reg):
@@ -176,6 +185,7 @@ def register_relational(reg):
         params = {'self': ('record', cls, {}), **pt, **w}
         reg.add(Contract(
             target=F + cls + '.evaluate', props=['C13'], kind='method', tag='linear-in-flux',
+            replay=_rp(cls, w),
             params=dict(params), requires=[kpos], consts=consts,
             relate={'extra': {'k': 'real'}, 'second': {'flux': 'k * flux'}},
             ensures=[('scales-with-flux', 'result2 == k * result')],
@@ -184,6 +194,7 @@ def register_relational(reg):
         ))
         reg.add(Contract(
             target=F + cls + '.evaluate', props=['C13'], kind='method', tag='non-negative',
+            replay=_rp(cls, w),
             params=dict(params), requires=[kpos, 'flux >= 0', lemma], consts=consts,
             ensures=[('non-negative', 'result >= 0')],
             note=('erf is monotone' if prf else 'exp is positive') + ' (assumed lemma about the '
@@ -197,6 +208,7 @@ def register_relational(reg):
             continue
         reg.add(Contract(
             target=F + cls + '.evaluate', props=['C13'], kind='method', tag='centred',
+            replay=_rp(cls, w),
             params=dict(params), requires=[kpos] + ([ERF_ODD] if prf else []), consts=consts,
             relate={'second': {'x': '2 * x_0 - x', 'y': '2 * y_0 - y'}},
             ensures=[('point-symmetric-about-x0-y0', 'result2 == result')],
@@ -209,6 +221,7 @@ def register_relational(reg):
     s2 = 'sqrt_(2)'
     reg.add(Contract(
         target=F + 'CircularGaussianSigmaPRF.evaluate', props=['C13'], kind='method',
+        replay={'call': 'photutils.psf.functional_models:CircularGaussianSigmaPRF.evaluate', 'self': 'none', 'approx': True, 'args': ['x', 'y', 'flux', 'x_0', 'y_0', 'sigma']},
         params={'self': ('record', 'CircularGaussianSigmaPRF', {}), **pt, 'sigma': 'posreal'},
         requires=[kpos], consts=consts,
         ensures=[('erf-difference-formula',
